@@ -624,6 +624,9 @@ func RefSuccess(in map[string]any) map[string]any {
 	nl = append(nl, l...)
 	nl = append(nl, a)
 	out := map[string]any{"v": a*2 + 1 + int64(len(l)), "s": key + ":" + b, "ok": !c, "l": nl}
+	if _, isAny := in["b"].(AnyStr); isAny {
+		out["s"] = AnyStr{}
+	}
 	if o, ok := in["opt1"]; ok {
 		out["opt"] = refInt(o)
 	}
@@ -634,6 +637,9 @@ func RefSuccess(in map[string]any) map[string]any {
 func RefError(in map[string]any) map[string]any {
 	b, _ := in["b"].(string)
 	key, _ := in["key"].(string)
+	if _, isAny := in["b"].(AnyStr); isAny {
+		return map[string]any{"msg": AnyStr{}}
+	}
 	return map[string]any{"msg": "err:" + key + ":" + b}
 }
 
